@@ -182,6 +182,10 @@ c02_chunks! {c02_chunks_u16_1, u16, mk_u16, 1}
 c02_chunks! {c02_chunks_u16_2, u16, mk_u16, 2}
 c02_chunks! {c02_chunks_u16_3, u16, mk_u16, 3}
 c02_chunks! {c02_chunks_zst_3, (), mk_unit, 3}
+c02_chunks! {c02_chunks_u16_4, u16, mk_u16, 4} // bound="slice len<=8, chunk size 4 (a power of two)"
+c02_chunks! {c02_chunks_u16_5, u16, mk_u16, 5} // bound="slice len<=8, chunk size 5"
+c02_chunks! {c02_chunks_u16_6, u16, mk_u16, 6} // bound="slice len<=8, chunk size 6 (even, not a power of two)"
+c02_chunks! {c02_chunks_u16_7, u16, mk_u16, 7} // bound="slice len<=8, chunk size 7"
 
 harness! {
     /// kind=bounded tier=quick bound="slice len<=8, N = 3 (mutable array conversion), N = 0 array conversion"
